@@ -173,6 +173,11 @@ def single_defs(fn_node) -> dict:
                         cnt[x.id] = cnt.get(x.id, 0) + 1
                         if len(n.targets) == 1 and x is t:
                             val[x.id] = n.value
+                        elif len(n.targets) == 1 and isinstance(t, (ast.Tuple, ast.List)) \
+                                and isinstance(n.value, (ast.Tuple, ast.List)) and \
+                                len(t.elts) == len(n.value.elts) and x in t.elts:
+                            # a, b = x, y: element-wise
+                            val[x.id] = n.value.elts[t.elts.index(x)]
         elif isinstance(n, (ast.AugAssign, ast.AnnAssign)) and isinstance(n.target, ast.Name):
             cnt[n.target.id] = cnt.get(n.target.id, 0) + 2
         elif isinstance(n, (ast.For, ast.comprehension)):
@@ -267,6 +272,142 @@ def diagonal_store(st, fnode=None):
     if t is not None:
         return t, st.value
     return None
+
+
+def bind_call_args(h, call):
+    """{parameter: argument expression} for the call `call` of the function
+    definition `h` (positional, keyword and default arguments; the receiver of
+    `obj.h(...)` is bound to `self`); None when the binding is not static."""
+    if any(k_.arg is None for k_ in call.keywords) or \
+            h.args.vararg or h.args.kwarg or h.args.kwonlyargs or \
+            any(isinstance(a, ast.Starred) for a in call.args):
+        return None
+    params = [a.arg for a in h.args.args]
+    args = list(call.args)
+    if call.keywords or len(h.args.defaults):
+        dflt = dict(zip(params[len(params) - len(h.args.defaults):], h.args.defaults))
+        kw = {k_.arg: k_.value for k_ in call.keywords}
+        implicit = 1 if params and params[0] in ("self", "cls") and not (
+            isinstance(call.func, ast.Name)) else 0
+        rest = params[implicit + len(args):]
+        if set(kw) - set(rest):
+            return None
+        for p_ in rest:
+            if p_ in kw:
+                args.append(kw[p_])
+            elif p_ in dflt:
+                args.append(dflt[p_])
+            else:
+                return None
+    is_static = any(ast.unparse(d) in ("staticmethod", "classmethod")
+                    for d in h.decorator_list)
+    if params and params[0] in ("self", "cls") and len(params) == len(args) + 1:
+        if params[0] == "self" and not is_static and isinstance(call.func, ast.Attribute):
+            args = [call.func.value] + args
+        else:
+            params = params[1:]
+    if len(params) != len(args):
+        return None
+    return dict(zip(params, args))
+
+
+def _subst_names(node, mapping):
+    import copy
+
+    class T(ast.NodeTransformer):
+        def visit_Name(self, n):
+            if isinstance(n.ctx, ast.Load) and n.id in mapping:
+                return ast.copy_location(copy.deepcopy(mapping[n.id]), n)
+            return n
+    return T().visit(copy.deepcopy(node))
+
+
+def returned_tuple(h, call, not_none=lambda name: False):
+    """The elements of the tuple the helper `h` returns for the call `call`, as
+    expressions of the *caller's* scope: helper locals inlined, nested
+    single-expression closures applied, parameters replaced by the arguments,
+    `<dtype constant> is None` folded.  None when h does not end in one
+    `return (a, b, ...)`."""
+    rets = [n for n in ast.walk(h) if isinstance(n, ast.Return)]
+    nested = {n.name: n for n in h.body if isinstance(n, ast.FunctionDef)}
+    rets = [r for r in rets if not any(r in ast.walk(nf) for nf in nested.values())]
+    if len(rets) != 1 or not isinstance(rets[0].value, ast.Tuple) or \
+            h.body[-1] is not rets[0]:
+        return None
+    mp = bind_call_args(h, call)
+    if mp is None:
+        return None
+    out = []
+    for e in rets[0].value.elts:
+        e = inline_locals(h, e)
+        # apply nested closures `def g(x): return <expr>`
+        for _ in range(3):
+            changed = False
+
+            class A(ast.NodeTransformer):
+                def visit_Call(self, n):
+                    nonlocal changed
+                    self.generic_visit(n)
+                    if isinstance(n.func, ast.Name) and n.func.id in nested:
+                        g = nested[n.func.id]
+                        body = [b for b in g.body if not (
+                            isinstance(b, ast.Expr) and isinstance(b.value, ast.Constant))]
+                        if len(body) == 1 and isinstance(body[0], ast.Return) and \
+                                body[0].value is not None:
+                            gm = bind_call_args(g, n)
+                            if gm is not None:
+                                changed = True
+                                return _subst_names(body[0].value, gm)
+                    return n
+            e = A().visit(e)
+            if not changed:
+                break
+        e = _subst_names(e, mp)
+
+        class Fold(ast.NodeTransformer):
+            def visit_IfExp(self, n):
+                self.generic_visit(n)
+                t = n.test
+                if isinstance(t, ast.Compare) and len(t.ops) == 1 and \
+                        isinstance(t.comparators[0], ast.Constant) and \
+                        t.comparators[0].value is None:
+                    known = None
+                    if isinstance(t.left, ast.Constant):
+                        known = t.left.value is None
+                    elif isinstance(t.left, ast.Name) and not_none(t.left.id):
+                        known = False
+                    if known is not None:
+                        if isinstance(t.ops[0], ast.Is):
+                            return n.body if known else n.orelse
+                        if isinstance(t.ops[0], ast.IsNot):
+                            return n.orelse if known else n.body
+                return n
+        out.append(ast.fix_missing_locations(Fold().visit(e)))
+    return out
+
+
+def expand_starred_args(call, resolve, not_none=lambda name: False):
+    """Positional arguments of `call` with every `*obj.H(...)` replaced by the
+    elements of the tuple H returns (resolve(name) -> FunctionDef | None);
+    None when some starred argument cannot be expanded statically."""
+    out = []
+    for a in call.args:
+        if not isinstance(a, ast.Starred):
+            out.append(a)
+            continue
+        v = a.value
+        if isinstance(v, (ast.Tuple, ast.List)):
+            out.extend(v.elts)
+            continue
+        if not (isinstance(v, ast.Call) and isinstance(v.func, (ast.Attribute, ast.Name))):
+            return None
+        name = v.func.attr if isinstance(v.func, ast.Attribute) else v.func.id
+        h = resolve(name)
+        elts = returned_tuple(h, v, not_none) if h is not None else None
+        if elts is None:
+            return None
+        out.extend(elts)
+    return out
 
 
 def inline_simple_helpers(fnode, resolve, depth=2):
@@ -556,3 +697,87 @@ def const_seq(expr, cls=None, classes=None):
                 if isinstance(tgt, ast.Name) and tgt.id == expr.attr and val is not None:
                     return const_seq(val, cls, classes)
     return None
+
+
+def fold_constants(node, consts: dict):
+    """Copy of a function body with names / self attributes of `consts`
+    replaced by constants, comparisons between constants evaluated, and
+    if / conditional expressions / boolean operators with a constant test
+    pruned."""
+    import copy
+
+    def const(e):
+        return isinstance(e, ast.Constant)
+
+    class F(ast.NodeTransformer):
+        def visit_Name(self, n):
+            if isinstance(n.ctx, ast.Load) and n.id in consts:
+                return ast.copy_location(ast.Constant(consts[n.id]), n)
+            return n
+
+        def visit_Attribute(self, n):
+            self.generic_visit(n)
+            key = ast.unparse(n)
+            if isinstance(n.ctx, ast.Load) and key in consts:
+                return ast.copy_location(ast.Constant(consts[key]), n)
+            return n
+
+        def visit_Compare(self, n):
+            self.generic_visit(n)
+            if len(n.ops) == 1 and const(n.left) and const(n.comparators[0]):
+                a, b = n.left.value, n.comparators[0].value
+                op = n.ops[0]
+                if isinstance(op, ast.Eq):
+                    return ast.copy_location(ast.Constant(a == b), n)
+                if isinstance(op, ast.NotEq):
+                    return ast.copy_location(ast.Constant(a != b), n)
+            if len(n.ops) == 1 and const(n.left) and isinstance(
+                    n.comparators[0], (ast.Tuple, ast.List, ast.Set)) and all(
+                    const(e) for e in n.comparators[0].elts):
+                vals = [e.value for e in n.comparators[0].elts]
+                if isinstance(n.ops[0], ast.In):
+                    return ast.copy_location(ast.Constant(n.left.value in vals), n)
+                if isinstance(n.ops[0], ast.NotIn):
+                    return ast.copy_location(ast.Constant(n.left.value not in vals), n)
+            return n
+
+        def visit_UnaryOp(self, n):
+            self.generic_visit(n)
+            if isinstance(n.op, ast.Not) and const(n.operand):
+                return ast.copy_location(ast.Constant(not n.operand.value), n)
+            return n
+
+        def visit_BoolOp(self, n):
+            self.generic_visit(n)
+            is_and = isinstance(n.op, ast.And)
+            vals = []
+            for v in n.values:
+                if const(v):
+                    if bool(v.value) != is_and:      # absorbing element
+                        return ast.copy_location(ast.Constant(not is_and), n)
+                    continue                          # neutral element
+                vals.append(v)
+            if not vals:
+                return ast.copy_location(ast.Constant(is_and), n)
+            if len(vals) == 1:
+                return vals[0]
+            n.values = vals
+            return n
+
+        def visit_IfExp(self, n):
+            self.generic_visit(n)
+            if const(n.test):
+                return n.body if n.test.value else n.orelse
+            return n
+
+        def visit_If(self, n):
+            n.test = self.visit(n.test)
+            if const(n.test):
+                out = []
+                for st in (n.body if n.test.value else n.orelse):
+                    r = self.visit(st)
+                    out.extend(r if isinstance(r, list) else [r] if r is not None else [])
+                return out or [ast.copy_location(ast.Pass(), n)]
+            self.generic_visit(n)
+            return n
+    return F().visit(copy.deepcopy(node))
